@@ -205,9 +205,11 @@ def gen_posix(rng, k3_domain=False):
         if r < .6:
             return ('M', month, rng.randint(1, 5), rng.randint(0, 6))
         first = (D.date(2001, month, 1) - D.date(2001, 1, 1)).days
+        mlen = (D.date(2001, month + 1, 1) - D.date(2001, month, 1)).days
+        day = rng.choice([1, mlen, mlen, rng.randint(1, mlen), rng.randint(1, mlen)])     # month ends and starts matter
         if r < .8:
-            return ('J', first + rng.randint(1, 28))
-        return ('N', first + rng.randint(0, 27))
+            return ('J', first + day)
+        return ('N', first + day - 1)
     stdoff = rng.choice([-43200, -36000, -18000, -17762, -12600, -3600, 0, 1172, 3600, 7200, 19800, 20700, 34200, 36000, 43200, 45900])
     saving = rng.choice([1800, 3600, 3600, 3600, 7200])
     std = rng.choice(['EST', 'CET', 'AEST', 'NST', 'AAA', 'WET', 'XYZST'])
